@@ -79,7 +79,9 @@ trait MaybeEqual {
 impl MaybeEqual for VariableAccess {
     fn maybe_equal(&self, other: &VariableAccess) -> bool {
         use AccessType::*;
-        if self.var.name() != other.var.name() {
+        // The variables are compared without their versions. The names alone are not enough, since
+        // two components declared in different scopes may have the same name.
+        if self.var != other.var {
             return false;
         }
         if self.access.len() != other.access.len() {
